@@ -100,3 +100,73 @@ def run_resolve_case(ctx, suite, case, oracle=None, compare=True):
 def slim(case):
     """cases as stored in replays / samples: drop bulky derived fields"""
     return {k: v for k, v in case.items() if k not in ('part', 'appearance')} if isinstance(case, dict) else case
+
+
+# ----------------------------------------------------------------------------------------------
+#  graph reader / annotation parser
+# ----------------------------------------------------------------------------------------------
+def canon_attr_val(v):
+    if isinstance(v, bool):
+        return ['o', repr(v)]
+    if isinstance(v, (int, float)):
+        return ['f', repr(float(v))]
+    if isinstance(v, str):
+        return ['s', v]
+    return ['o', repr(v)]
+
+
+def model_attr_val(j):
+    from fractions import Fraction
+    if 's' in j:
+        return ['s', j['s']]
+    m, e = j['n']
+    return ['f', repr(float(Fraction(m) * Fraction(10) ** e))]
+
+
+def dump_cg(g):
+    nodes = [[k, sorted([a, canon_attr_val(v)] for a, v in d.items())] for k, d in g.nodes(data=True)]
+    edges = sorted([min(a, b), max(a, b), d.get('order')] for a, b, d in g.edges(data=True))
+    return {'n': nodes, 'e': edges}
+
+
+def model_cg(j):
+    return {'n': [[k, sorted([a, model_attr_val(v)] for a, v in attrs)] for k, attrs in j['n']],
+            'e': sorted(j['e'])}
+
+
+def run_read_case(ctx, suite, s, oracle=None, case=None, nontrivial=True):
+    """read_cgsmiles(s) on the implementation and on the model; exact comparison incl. error class"""
+    from cgsmiles.read_cgsmiles import read_cgsmiles
+    case = case if case is not None else {'kind': 'graph', 's': s}
+    try:
+        with lib.quiet():
+            g = read_cgsmiles(s)
+        got = ('ok', g)
+    except RecursionError:
+        raise
+    except Exception as err:    # noqa: BLE001
+        got = ('err', lib.err_class(err))
+    fp = lib.stable_hash([got[0], got[1] if got[0] == 'err' else [g.number_of_nodes(), g.number_of_edges(),
+                                                                    sorted(o for *_, o in g.edges(data='order') if o is not None)],
+                          sum(map(s.count, '()|%'))])
+    ctx.count(suite, fp, nontrivial=nontrivial and len(s) > 6, sample=s)
+    ctx.feature(f'{suite}:{got[0] if got[0] == "ok" else "err-" + got[1]}')
+    if not ctx.oracle_only:
+        rep = ctx.model({'op': 'readcg', 's': s})
+        if 'fail' in rep:
+            raise RuntimeError('driver protocol failure: ' + rep['fail'])
+        if rep.get('err') == 'unsupported':
+            ctx.skip_unsupported()
+        elif got[0] == 'ok':
+            if 'ok' not in rep:
+                ctx.disagree(suite, case, f'implementation reads a graph, model raises {rep.get("err")}')
+            else:
+                d = lib.diff_obj(model_cg(rep['ok']), dump_cg(g), 'graph')
+                if d:
+                    ctx.disagree(suite, case, d)
+        else:
+            if 'ok' in rep or rep.get('err') != got[1]:
+                ctx.disagree(suite, case, f'implementation raises {got[1]}, model: {"a graph" if "ok" in rep else rep.get("err")}')
+    if oracle:
+        oracle(ctx, case, got)
+    return got
